@@ -48,6 +48,24 @@ def gen(rng, tier):
             b = iu.ref_wire(m, cfg, codec, False)
         except (iu.Refused, UnicodeEncodeError):
             continue
+        if i % 5 == 1:
+            # the processor on a FIXED element wider than the number: the value is the number and its blank padding, and the
+            # mask covers positions 6 .. len-5 of THAT (what survives at the end is padding and the digits before it)
+            fixed = [kk for kk, cc in cfg.items() if cc['field_type'] == 'FIXED' and not cc.get('field_processor') and cc.get('field_python_type') in (None, 'string') and cc['field_length'] >= 14]
+            if fixed:
+                kf = rng.choice(fixed)
+                w = cfg[kf]['field_length']
+                cfg2 = dict(cfg)
+                cfg2[kf] = dict(cfg[kf], field_processor=proc)
+                short = ''.join(rng.choice('0123456789') for _ in range(w - rng.choice([1, 2, 3, 3])))
+                m2 = dict(m)
+                m2.pop('DE' + k, None)
+                m2['DE' + kf] = short
+                try:
+                    b2 = iu.ref_wire(m2, cfg2, codec, False)
+                    cases.append({'kind': 'decode', 'cfg': cfg2, 'codec': codec, 'bytes': b2.hex(), 'pan': short.ljust(w), 'bit': kf, 'proc': proc})
+                except (iu.Refused, UnicodeEncodeError):
+                    pass
         if i % 5 == 3:
             # the processor COMBINED with a numeric python type on the same element (decoding only: the bytes above were laid
             # out from the text): the prefix comes back as a number, the masked form is not a number and is refused - in
